@@ -114,6 +114,7 @@ def run_k2(facts, ctx, inv=None, watch=()):
     res.stores = []
     res.gate = None
     res.pre = None
+    res.post_update2 = None
     res.gate_preds = []
     I.side["gate_preds"] = res.gate_preds
     msg = frame(ctx["L"], dict(ctx.get("fixed") or {}))
@@ -151,7 +152,7 @@ def run_k2(facts, ctx, inv=None, watch=()):
 
     def on_store(state, cell, path, v, node):
         if cell == row_cell and path and path[0][0] == "field":
-            res.stores.append((path, v, state.pc, state.ctl))
+            res.stores.append((path, v, state.pc, state.ctl_deps()))
     I.on_store = on_store
     try:
         b = facts.one("get_downlink_format")
@@ -189,6 +190,16 @@ def run_k2(facts, ctx, inv=None, watch=()):
         res.post_update = I.side.get("update_row")
         res.post_create = I.side.get("create_row")
         res.final_state = st
+        res.post_update2 = None
+        if ctx.get("twice") and res.post_update is not None:
+            # idempotence: the same frame applied again to the row it has just updated
+            n_obl = len(I.obligations)
+            st2 = I.side.get("update_state") or st
+            I.cell_set(st, row_cell, res.post_update)
+            res.stores_first = list(res.stores)
+            st, _ = I.run_body(st, ub, [pref, dlref, mref, df, icao, aref])
+            res.post_update2 = I.side.get("update_row")
+            res.stores = res.stores_first
     except Diverge as e:
         res.diverged = "definite panic / no return in %s" % e
     return res
